@@ -39,16 +39,23 @@ def demo(root, path):
 
 
 def main():
-    ids = sys.argv[1:] or ["C%02d" % i for i in range(1, 21)]
+    args = sys.argv[1:]
+    prefix, tag = "/tmp/seed_", ""
+    if args and args[0] == "--round2":
+        prefix, tag = "/tmp/seed2_", "r2-"
+        args = args[1:]
+    ids = args or ["C%02d" % i for i in range(1, 21)]
     os.makedirs(SEEDED, exist_ok=True)
     for pid in ids:
-        out = "/tmp/seed_%s/out" % pid
+        out = "%s%s/out" % (prefix, pid)
         if not os.path.isdir(out):
             print("%s: no output directory yet" % pid)
             continue
         for n in sorted(os.listdir(out)):
             src = os.path.join(out, n)
-            name = "%s-%s" % (pid, n)
+            if not n.isdigit():
+                continue
+            name = "%s-%s%s" % (pid, tag, n)
             dst = os.path.join(SEEDED, name)
             if os.path.exists(os.path.join(dst, "meta.json")):
                 continue
